@@ -118,14 +118,18 @@ Definition default_id (noise : bool) (i : nat) : string :=
 Definition all_absent (H : list hentry) : bool :=
   forallb (fun h => match snd h with IdAbsent => true | _ => false end) H.
 
-(* identifiers before the uniqueness test.  Without any identifier in H:
-   np.fromiter((f'A_{i}' ...), dtype='<U4') -- a fixed width of FOUR characters.  Otherwise the
-   entries that are None (or missing: zip_longest fills None) get f'A_{i}' in a Python list. *)
+(* identifiers before the uniqueness test.  Without any identifier in H: np.array([f'A_{i}' ...]).
+   Otherwise the entries that are None (or missing: zip_longest fills None) get f'A_{i}' in a Python list. *)
 Definition fill_ids (noise : bool) (H : list hentry) : list string :=
   if all_absent H
-  then map (fun i => Str.take 4 (default_id noise i)) (seq 0 (length H))
+  then map (default_id noise) (seq 0 (length H))
   else map (fun ih => match snd (snd ih) with Id s => s | _ => default_id noise (fst ih) end)
            (combine (seq 0 (length H)) H).
+(* before fix 313e828 the first branch was np.fromiter(.., dtype='<U4'): four characters *)
+Definition fill_ids_prefix (noise : bool) (H : list hentry) : list string :=
+  if all_absent H
+  then map (fun i => Str.take 4 (default_id noise i)) (seq 0 (length H))
+  else fill_ids noise H.
 
 Definition parsed := (list mat * list string * list (list num))%type.
 
@@ -133,6 +137,15 @@ Definition parse_hamiltonian (noise : bool) (n_dt : nat) (H : list hentry) : res
   let opers := map (fun h => fst (fst h)) H in
   let coeffs := map (fun h => snd (fst h)) H in
   let ids := fill_ids noise H in
+  if negb (all_absent H) && negb (uniqueb ids) then Raise ValueError
+  else if negb (forallb (fun c => length c =? n_dt) coeffs) then Raise ValueError
+  else let idx := argsort ids in
+       Ok (gather [] opers idx, gather EmptyString ids idx, gather [] coeffs idx).
+
+Definition parse_hamiltonian_prefix (noise : bool) (n_dt : nat) (H : list hentry) : result parsed :=
+  let opers := map (fun h => fst (fst h)) H in
+  let coeffs := map (fun h => snd (fst h)) H in
+  let ids := fill_ids_prefix noise H in
   if negb (all_absent H) && negb (uniqueb ids) then Raise ValueError
   else if negb (forallb (fun c => length c =? n_dt) coeffs) then Raise ValueError
   else let idx := argsort ids in
@@ -156,6 +169,14 @@ Definition construct (Hc Hn : list hentry) (dts : list num) (d : nat) (b : list 
       end
   end.
 
+(* arr[mask] with a boolean mask; dt != 0 on exact dyadics *)
+Fixpoint keep_mask {A} (l : list A) (m : list bool) : list A :=
+  match l, m with
+  | x :: r, b :: m' => if b then x :: keep_mask r m' else keep_mask r m'
+  | _, _ => []
+  end.
+Definition nonzero_dt (x : num) : bool := negb (Z.eqb (fst x) 0).
+
 (* ------------------------------------------------------------------------------------------- *)
 Section Eq.
   Variable fadd : num -> num -> num.                 (* dt[new] += pulse.dt[old] *)
@@ -172,7 +193,8 @@ Section Eq.
   Definition accumulate (pdt : list num) (idx : list nat) (dt0 : list num) : list num :=
     fold_left (fun d on => upd d (snd on) (fadd (nth (snd on) d d0) (nth (fst on) pdt d0)))
               (combine idx (zip_with Nat.sub idx (seq 0 (length idx)))) dt0.
-  Definition join_equal_segments (p : pulse) : list (list num) * list (list num) * list num :=
+  (* the merge of equal neighbours (all of _join_equal_segments before fix ac70929) *)
+  Definition join_core (p : pulse) : list (list num) * list (list num) * list num :=
     let ei := equal_ind p in
     match ei with
     | [] => (c_coeffs p, n_coeffs p, dt p)
@@ -180,6 +202,16 @@ Section Eq.
             map (fun r => np_delete r ei) (n_coeffs p),
             accumulate (dt p) ei (np_delete (dt p) ei))
     end.
+  (* nonzero = dt != 0; if nonzero.any() and not nonzero.all(): keep the columns arr[:, nonzero] *)
+  Definition drop_zero (p : pulse) : pulse :=
+    let nz := map nonzero_dt (dt p) in
+    if existsb (fun b => b) nz && negb (forallb (fun b => b) nz)
+    then mkPulse (c_opers p) (c_ids p) (map (fun r => keep_mask r nz) (c_coeffs p))
+                 (n_opers p) (n_ids p) (map (fun r => keep_mask r nz) (n_coeffs p))
+                 (keep_mask (dt p) nz) (dim p) (basis p)
+    else p.
+  Definition join_equal_segments (p : pulse) : list (list num) * list (list num) * list num :=
+    join_core (drop_zero p).
 
   (* Basis.__eq__ for two Basis objects: shapes, then np.allclose(.., atol=self._atol, rtol=0) *)
   Definition shape3 (b : list mat) : nat * nat * nat :=
@@ -194,10 +226,10 @@ Section Eq.
   Definition list_eqb_num (a b : list num) : bool := (length a =? length b) && all2 num_eqb a b.
 
   (* PulseSequence.__eq__ (other is a PulseSequence) *)
-  Definition eq (A B : pulse) : bool :=
+  Definition eq_with (join : pulse -> list (list num) * list (list num) * list num) (A B : pulse) : bool :=
     let nb := length (basis A) in
-    let '(ccA, ncA, dtA) := join_equal_segments A in
-    let '(ccB, ncB, dtB) := join_equal_segments B in
+    let '(ccA, ncA, dtA) := join A in
+    let '(ccB, ncB, dtB) := join B in
     if negb (length dtA =? length dtB) then false else
     if negb (all2 (close nb) dtA dtB) then false else
     if negb (length (c_opers A) =? length (c_opers B)) || negb (length (n_opers A) =? length (n_opers B)) then false else
@@ -211,10 +243,13 @@ Section Eq.
     if negb (all2 list_eqb_num (gather [] ncA niA) (gather [] ncB niB)) then false else
     if negb (basis_eq (basis A) (basis B)) then false else
     true.
+  Definition eq := eq_with join_equal_segments.
+  Definition eq_prefix := eq_with join_core.          (* __eq__ before fix ac70929 *)
 End Eq.
 
 Definition join64 := join_equal_segments fadd64.
 Definition eq64 := eq fadd64 close_dt bclose.
+Definition eq64_prefix := eq_prefix fadd64 close_dt bclose.
 
 (* ------------------------------------------------------------------------------------------- *)
 (* __getitem__: key is an int or a slice (start, stop, step may be None)                        *)
@@ -270,7 +305,9 @@ Definition getitem (p : pulse) (k : key) : result pulse :=
    ndarray subclass (payload + its own attribute dict: the Basis).  Mutation is assignment to a cell.
    copy.deepcopy(value) re-allocates arrays and dicts recursively; for an ndarray subclass NumPy copies
    the data and calls __array_finalize__(new, old), which re-binds the attributes to the SAME objects
-   (Basis.__array_finalize__: self.labels = getattr(basis, 'labels', ..)).                           *)
+   (before fix 9f6ee83 Basis.__array_finalize__ did self.labels = getattr(basis, 'labels', ..), so the list
+   of labels was such a re-bound attribute; now it is list(...), a value copied along with the data, and the
+   Basis of a pulse is a subclass cell without re-bound mutable attributes).                            *)
 Definition loc := nat.
 Inductive cell :=
 | CArr (payload : list num)
